@@ -67,6 +67,11 @@ func init() {
 
 type contextualizerData struct {
 	Payload any `json:"payload"`
+	// RawPayload and ContentType hold the received response body and its type, if the decoded payload
+	// would not survive the JSON encoding used to cache this object (like integers in a YAML document, or
+	// the values of a form). In that case the body is cached and decoded again when reused.
+	RawPayload  []byte `json:"raw_payload,omitempty"`
+	ContentType string `json:"content_type,omitempty"`
 }
 
 type genericContextualizer struct {
@@ -145,7 +150,11 @@ func (h *genericContextualizer) Execute(ctx heimdall.Context, sub *subject.Subje
 		if entry, err := cch.Get(ctx.AppContext(), cacheKey); err == nil {
 			var cd contextualizerData
 
-			if err = json.Unmarshal(entry, &cd); err == nil {
+			if err = json.Unmarshal(entry, &cd); err == nil && len(cd.RawPayload) != 0 {
+				cd.Payload, err = h.decodePayload(ctx, cd.ContentType, cd.RawPayload)
+			}
+
+			if err == nil {
 				logger.Debug().Msg("Reusing contextualizer response from cache")
 
 				response = &cd
@@ -160,7 +169,12 @@ func (h *genericContextualizer) Execute(ctx heimdall.Context, sub *subject.Subje
 		}
 
 		if h.ttl > 0 && len(cacheKey) != 0 {
-			data, _ := json.Marshal(response)
+			toCache := *response
+			if len(toCache.RawPayload) != 0 {
+				toCache.Payload = nil
+			}
+
+			data, _ := json.Marshal(toCache)
 
 			if err = cch.Set(ctx.AppContext(), cacheKey, data, h.ttl); err != nil {
 				logger.Warn().Err(err).Msg("Failed to cache contextualizer response")
@@ -251,7 +265,7 @@ func (h *genericContextualizer) callEndpoint(
 		return nil, err
 	}
 
-	return &contextualizerData{Payload: data}, nil
+	return data, nil
 }
 
 func (h *genericContextualizer) createRequest(
@@ -307,11 +321,14 @@ func (h *genericContextualizer) createRequest(
 	return req, nil
 }
 
-func (h *genericContextualizer) readResponse(ctx heimdall.Context, resp *http.Response) (any, error) {
+func (h *genericContextualizer) readResponse(
+	ctx heimdall.Context,
+	resp *http.Response,
+) (*contextualizerData, error) {
 	logger := zerolog.Ctx(ctx.AppContext())
 
 	if !(resp.StatusCode >= http.StatusOK && resp.StatusCode < http.StatusMultipleChoices) {
-		return nil, errorchain.NewWithMessagef(heimdall.ErrCommunication,
+		return &contextualizerData{}, errorchain.NewWithMessagef(heimdall.ErrCommunication,
 			"unexpected response code: %v", resp.StatusCode).
 			WithErrorContext(h)
 	}
@@ -319,12 +336,12 @@ func (h *genericContextualizer) readResponse(ctx heimdall.Context, resp *http.Re
 	if resp.ContentLength == 0 {
 		logger.Warn().Msg("No data received from the contextualization endpoint")
 
-		return nil, errNoContent
+		return &contextualizerData{}, errNoContent
 	}
 
 	rawData, err := io.ReadAll(resp.Body)
 	if err != nil {
-		return nil, errorchain.NewWithMessage(heimdall.ErrInternal, "failed to read response").
+		return &contextualizerData{}, errorchain.NewWithMessage(heimdall.ErrInternal, "failed to read response").
 			WithErrorContext(h).
 			CausedBy(err)
 	}
@@ -332,6 +349,22 @@ func (h *genericContextualizer) readResponse(ctx heimdall.Context, resp *http.Re
 	contentType := resp.Header.Get("Content-Type")
 
 	logger.Debug().Str("_content_type", contentType).Msg("Response received")
+
+	result, err := h.decodePayload(ctx, contentType, rawData)
+	if err != nil {
+		return &contextualizerData{}, err
+	}
+
+	if _, isString := result.(string); isString || strings.Contains(contentType, "json") {
+		// survives the JSON encoding as is
+		return &contextualizerData{Payload: result}, nil
+	}
+
+	return &contextualizerData{Payload: result, RawPayload: rawData, ContentType: contentType}, nil
+}
+
+func (h *genericContextualizer) decodePayload(ctx heimdall.Context, contentType string, rawData []byte) (any, error) {
+	logger := zerolog.Ctx(ctx.AppContext())
 
 	decoder, err := contenttype.NewDecoder(contentType)
 	if err != nil {
